@@ -61,6 +61,9 @@ static inline uint32_t in_u32(void) { uint32_t a = in_u16(); uint32_t b = in_u16
 static inline uint64_t in_u64(void) { uint64_t a = in_u32(); uint64_t b = in_u32(); return a | (b << 32); }
 static inline void in_bytes(unsigned char *p, unsigned n) { unsigned i; for (i = 0; i < n; i++) p[i] = in_u8(); }
 
+/* assert-then-assume: a failed set-up step is reported once and not explored further */
+#define REQUIRE(c, id) do { CHECK((c), id); ASSUME(c); } while (0)
+
 /* allocation that never fails (allocation failure is outside every property) */
 static inline void *xmalloc(size_t n)
 {
